@@ -1,7 +1,7 @@
 (* C11 — property theorems only.  Each is closed by [exact] of a lemma proved in
    Proofs/TransferOpsProofs.v and followed by Print Assumptions. *)
 From Coq Require Import ZArith QArith Qabs List Bool.
-From PySDC Require Import Base.Dyadic Base.Poly Model.TransferOps Proofs.TransferOpsProofs.
+From PySDC Require Import Base.Dyadic Base.Poly Model.TransferOps Model.FDnd Proofs.TransferOpsProofs Proofs.FDndProofs.
 Import ListNotations.
 
 (* ------------------------------------------------------------------------------------------------
@@ -198,3 +198,19 @@ Example C11_support_instances :
   next_neighbors_periodic 16 15 [0; 2; 4; 6; 8; 10; 12; 14]%Z 4 = [0; 1; 6; 7]%Z.
 Proof. vm_compute. repeat split; reflexivity. Qed.
 Print Assumptions C11_support_instances.
+
+(* ------------------------------------------------------------------------------------------------
+   n-D space transfer: the Kronecker product of two (rectangular) 1-D transfer matrices — entry function kron_rect, compared
+   entry-wise with the real 2-D Pspace / Rspace of mesh_to_mesh on non-square grids every run — applies the first factor along
+   the first axis and the second factor along the second axis of a row-major grid function, for every shape and every data,
+   over any commutative ring. (Repeated application gives any number of dimensions: kron is associative entry-wise.) *)
+Section C11_kron.
+  Context {K : Type} (kO kI : K) (kadd kmul ksub : K -> K -> K) (kopp : K -> K).
+  Hypothesis Rth : ring_theory kO kI kadd kmul ksub kopp (@eq K).
+  Theorem C11_kron_acts_per_axis : forall nbr nbc na (A B : nat -> nat -> K) (u : nat -> nat -> K) i j,
+    (j < nbr)%nat -> (0 < nbc)%nat ->
+    sumn kO kadd (fun c => kmul (kron_rect kmul nbr nbc A B (i * nbr + j) c) (u (c / nbc) (c mod nbc))%nat) (na * nbc)
+    = sumn kO kadd (fun a => kmul (A i a) (sumn kO kadd (fun b => kmul (B j b) (u a b)) nbc)) na.
+  Proof. exact (kron_rect_apply kO kI kadd kmul ksub kopp Rth). Qed.
+End C11_kron.
+Print Assumptions C11_kron_acts_per_axis.
